@@ -170,3 +170,37 @@ Theorem C09_oversize_on_disk_never_read :
     In p (reads (run_7z cwd base dec okd okw skip max_mem host dsize h)) -> dsize p <= max_mem.
 Proof. exact run_7z_reads_within_limit. Qed.
 Print Assumptions C09_oversize_on_disk_never_read.
+
+(* ---- ZIP / TAR member loops: what is read into memory at all.
+   TAR: a member handed to tf.extractfile is a regular-type member, passed _should_skip_file and is within the limit *)
+Theorem C09_tar_reads_pass_all_rules :
+  forall skipn max_mem REG ms i,
+    In i (tar_reads skipn max_mem REG 0 ms) ->
+    exists m, nth_error ms i = Some m /\ tar_isreg REG (a_type m) = true /\ skipn (a_name m) = false /\ a_size m <= max_mem.
+Proof. exact tar_read_rules. Qed.
+Print Assumptions C09_tar_reads_pass_all_rules.
+
+(* hard links, symlinks, character/block devices, directories and fifos are never read, whatever their name, size or
+   link target (reg_types_wf is re-decided for today's tarfile.REGULAR_TYPES in Inst.v) *)
+Theorem C09_tar_links_devices_never_read :
+  forall skipn max_mem REG ms i m,
+    reg_types_wf REG = true -> nth_error ms i = Some m -> In (a_type m) TAR_SPECIAL ->
+    ~ In i (tar_reads skipn max_mem REG 0 ms).
+Proof. exact tar_special_never_read. Qed.
+Print Assumptions C09_tar_links_devices_never_read.
+
+(* ZIP: a member handed to zf.read is no directory, not encrypted, passed _should_skip_file and is within the limit *)
+Theorem C09_zip_reads_pass_all_rules :
+  forall skipn max_mem ms l i,
+    zip_reads skipn max_mem ms = Some l -> In i l ->
+    exists m, nth_error ms i = Some m /\ a_dir m = false /\ a_enc m = false /\ skipn (a_name m) = false /\ a_size m <= max_mem.
+Proof. exact zip_read_rules. Qed.
+Print Assumptions C09_zip_reads_pass_all_rules.
+
+(* ZIP: one encrypted non-directory entry ANYWHERE in the listing (even one that would be skipped by name) makes the
+   first pass raise before any member is read *)
+Theorem C09_zip_encrypted_nothing_read :
+  forall skipn max_mem ms i m,
+    nth_error ms i = Some m -> a_dir m = false -> a_enc m = true -> zip_reads skipn max_mem ms = None.
+Proof. exact zip_encrypted_nothing_read. Qed.
+Print Assumptions C09_zip_encrypted_nothing_read.
